@@ -29,13 +29,13 @@ Lemma root_damage_spec st d :
   (r_later st = true -> r_later (root_damage st d) = true).
 Proof.
   intros Hne Hd Hf. unfold root_damage in *.
-  destruct (rs_contains rsfuel (r_damage st) d) as [[|]|] eqn:Ec.
+  destruct (rs_contains (r_fuel st) (r_damage st) d) as [[|]|] eqn:Ec.
   - split; [exact Hne|]. split.
     + intros p. split; [tauto|]. intros [H|H]; [exact H|].
       eapply rs_contains_sound; eassumption.
     + split; [reflexivity|]. split; [reflexivity|]. split; [reflexivity|].
       split; [exact Hf|]. split; [tauto|tauto].
-  - destruct (rs_add rsfuel (r_damage st) d) as [s|] eqn:Ea.
+  - destruct (rs_add (r_fuel st) (r_damage st) d) as [s|] eqn:Ea.
     + destruct (rs_add_covered _ _ _ _ Hne Hd Ea) as [Hs Hcov].
       cbn [r_damage r_tree r_queue r_orphans r_fault r_nexp r_later set_flags set_damage] in *.
       split; [exact Hs|]. split; [exact Hcov|].
